@@ -99,6 +99,11 @@ func (r *Run) finish(crashes []Crash, fatal error) int {
 			Detail: fmt.Sprintf("child process died (%s) while running case %s — a fatal runtime error, not a recoverable panic:\n%s", c.Exit, c.Case, c.Output)})
 	}
 
+	if dump := os.Getenv("VERIF_DUMP_VIOLATIONS"); dump != "" {
+		// maintenance aid (never used by registered commands): write every violation out
+		b, _ := json.MarshalIndent(r.M.Violations, "", " ")
+		os.WriteFile(dump, b, 0o644)
+	}
 	listed := map[string]string{}
 	for _, f := range known.Findings {
 		if f.Property == r.Prop {
